@@ -73,18 +73,19 @@ type msess struct {
 
 // Stats feed the non-triviality rules.
 type Stats struct {
-	Reissued      int
-	Classes       map[string]bool
-	SharedAtMsg   int // messages processed while >= 2 live sessions shared a rule id or CP SEID
-	Unanswered    int
-	ErrorAnswered int
-	EqualCP       bool
-	Ambiguous     int
-	Takeovers     int
-	Steps         int
-	Ended         int
-	Desync        bool
-	Dups          int
+	Reissued          int
+	Classes           map[string]bool
+	SharedAtMsg       int // messages processed while >= 2 live sessions shared a rule id or CP SEID
+	Unanswered        int
+	ErrorAnswered     int
+	ErrorAfterRefusal int // requests answered with an error cause after the data plane refused one of their rules (not asserted either way; must leave no trace)
+	EqualCP           bool
+	Ambiguous         int
+	Takeovers         int
+	Steps             int
+	Ended             int
+	Desync            bool
+	Dups              int
 }
 
 var errDesync = &vcore.Violation{Key: "desync"}
@@ -458,6 +459,7 @@ func (e *exec) step(i int, op Op) *vcore.Violation {
 	var wantCause uint8
 	ended := map[uint64]bool{}
 	var created *msess
+	rolledBack := false // an Establishment answered with an error cause after the data plane refused one of its rules
 	switch op.Kind {
 	case "hb":
 		expectAnswer, wantType = true, message.MsgTypeHeartbeatResponse
@@ -505,6 +507,15 @@ func (e *exec) step(i int, op Op) *vcore.Violation {
 			return errDesync
 		}
 	}
+	errorAfterRefusal := false
+	if isReq && rsp != nil && wantCause == causeAccepted && stack.Cause(rsp) != causeAccepted && stack.Cause(rsp) != 0 && (op.Kind == "est" || op.Kind == "mod") {
+		for _, cl := range o.Calls {
+			if cl.Err != "" {
+				errorAfterRefusal = true
+			}
+		}
+		rolledBack = errorAfterRefusal && op.Kind == "est"
+	}
 	if isReq && (e.or.Resp || e.or.SEID) {
 		if rsp != nil {
 			if rsp.MessageType() != wantType {
@@ -513,7 +524,11 @@ func (e *exec) step(i int, op Op) *vcore.Violation {
 			if rsp.Sequence() != o.SentSeq && e.or.Resp {
 				return vcore.Violatef("answer-seq", "step %d (%s): response sequence %d, request %d", i, op.Kind, rsp.Sequence(), o.SentSeq)
 			}
-			if wantCause != 0 && stack.Cause(rsp) != wantCause {
+			if errorAfterRefusal {
+				// the data plane refused one of the message's rules: answering with an error cause is as good as go-upf's
+				// "accepted" - the request must then have left no trace, which the frame condition below looks at
+				e.stats.ErrorAfterRefusal++
+			} else if wantCause != 0 && stack.Cause(rsp) != wantCause {
 				return vcore.Violatef("answer-cause", "step %d (%s %s seid=%#x): cause %d want %d", i, op.Kind, class, op.Raw, stack.Cause(rsp), wantCause)
 			}
 			switch op.Kind {
@@ -715,7 +730,23 @@ func (e *exec) step(i int, op Op) *vcore.Violation {
 	}
 
 	// --- calls: tagged with the addressed session's own SEID
+	if rolledBack {
+		// an Establishment given up after the data plane refused a rule: what was installed had to be taken out again; all of it
+		// under one SEID that no live session holds (that nothing stays behind is the frame condition's business)
+		var tmp uint64
+		for _, cl := range o.Calls {
+			if tmp == 0 {
+				tmp = cl.SEID
+			}
+			if cl.SEID != tmp || e.live[cl.SEID] != nil {
+				return vcore.Violatef("call-foreign-seid", "step %d (est, given up): data-plane call %s carries the SEID of a live session or differs from the other calls of the request (%#x)", i, vcore.JSON(cl), tmp)
+			}
+		}
+	}
 	for _, cl := range o.Calls {
+		if rolledBack {
+			break
+		}
 		if _, ok := A[cl.SEID]; !ok {
 			if e.or.Frame || e.or.SEID {
 				return vcore.Violatef("call-foreign-seid", "step %d (%s %s seid=%#x): data-plane call %s carries a SEID the message does not address", i, op.Kind, class, op.Raw, vcore.JSON(cl))
@@ -737,7 +768,7 @@ func (e *exec) step(i int, op Op) *vcore.Violation {
 			}
 		}
 	}
-	if len(A) == 0 && len(o.Calls) > 0 && (e.or.SEID || e.or.Resp) {
+	if len(A) == 0 && len(o.Calls) > 0 && (e.or.SEID || e.or.Resp) && !rolledBack {
 		return vcore.Violatef("calls-without-target", "step %d (%s %s seid=%#x): not addressed to a live session but caused data-plane calls %s", i, op.Kind, class, op.Raw, vcore.JSON(o.Calls))
 	}
 
